@@ -113,6 +113,9 @@ func genKnobs(t *core.Tape, kind Kind) simhttp.Knobs {
 		k.H1LateClose = t.Bool(1, 2, "h1lateclose")
 		k.H1LateCloseSlow = k.H1LateClose && t.Bool(1, 2, "h1lateclose.slow")
 	}
+	// net/http's servers keep a small answer to themselves until the handler
+	// flushes or returns (and then give it a Content-Length)
+	k.HoldAnswer = t.Bool(1, 2, "holdanswer")
 	if k.HTTP2 {
 		k.Lazy = t.Bool(1, 4, "lazy")
 		if t.Bool(1, 2, "postaccept") {
